@@ -172,6 +172,70 @@ func genSel(r *rng.R) sel {
 type ruleSet struct {
 	rules    []rule
 	features map[string]bool
+	mboxes   []mbox // the margin boxes of the base rule
+}
+
+// mbox is a margin box showing `counter(page) "/" counter(pages) "," counter(foo)`, possibly after
+// manipulating `page` or `foo` itself (the manipulation is scoped to the box).
+type mbox struct {
+	at  string // "top-center", …
+	op  string // "" | "increment" | "reset" | "set"
+	ctr string // "page" | "foo"
+	n   int
+}
+
+func (m mbox) css() string {
+	op := ""
+	if m.op != "" {
+		op = fmt.Sprintf("counter-%s:%s %d;", m.op, m.ctr, m.n)
+	}
+	return fmt.Sprintf(`@%s{%scontent:counter(page) "/" counter(pages) "," counter(foo);font:10px/10px Ahem}`, m.at, op)
+}
+
+// text the box shows on a page whose `page` counter is pc, of total pages.
+func (m mbox) text(pc, total int) string {
+	page, foo := pc, 0
+	v := &page
+	if m.ctr == "foo" {
+		v = &foo
+	}
+	switch m.op {
+	case "increment":
+		*v += m.n
+	case "reset", "set":
+		*v = m.n
+	}
+	return fmt.Sprintf("%d/%d,%d", page, total, foo)
+}
+
+func marginCSS(ms []mbox) string {
+	var b strings.Builder
+	for _, m := range ms {
+		b.WriteString(";" + m.css())
+	}
+	return b.String()
+}
+
+func genMBoxes(r *rng.R, feat map[string]bool) []mbox {
+	ms := []mbox{{at: "top-center"}}
+	// in the order makeMarginBoxes generates them, so that a manipulating box comes before displaying ones
+	for _, at := range []string{"top-left-corner", "top-left", "top-right", "bottom-left", "bottom-center", "bottom-right", "bottom-right-corner", "left-middle", "right-bottom"} {
+		if !r.P(1, 4) {
+			continue
+		}
+		m := mbox{at: at}
+		if r.P(1, 2) {
+			m.op = rng.Pick(r, "increment", "reset", "set")
+			m.ctr = rng.Pick(r, "page", "page", "foo")
+			m.n = r.Range(-2, 12)
+			feat["margin-box-counter-"+m.op] = true
+		}
+		ms = append(ms, m)
+	}
+	if len(ms) > 1 {
+		feat["several-margin-boxes"] = true
+	}
+	return ms
 }
 
 func genRules(r *rng.R) ruleSet {
@@ -181,7 +245,8 @@ func genRules(r *rng.R) ruleSet {
 	base.decls = append(base.decls,
 		decl{fmt.Sprintf("size:200px %vpx", h), []sx.X{d1("size-w", "px", 200, false), d1("size-h", "px", h, false)}},
 		decl{"margin:10px", []sx.X{d1("margin-top", "px", 10, false), d1("margin-right", "px", 10, false), d1("margin-bottom", "px", 10, false), d1("margin-left", "px", 10, false)}})
-	base.extra = `;@top-center{content:counter(page) "/" counter(pages);font:10px/10px Ahem}`
+	rs.mboxes = genMBoxes(r, rs.features)
+	base.extra = marginCSS(rs.mboxes)
 	rs.rules = append(rs.rules, base)
 	n := r.Intn(5)
 	for i := 0; i < n; i++ {
@@ -259,7 +324,8 @@ type implPage struct {
 	geom                [8]float64 // sheetW sheetH mL w mR mT h mB
 	lines               []c02.Placed
 	margin              []string
-	boxes               []decoBox // block boxes that keep a bottom padding / border on this page
+	marginBy            map[string]string // at-keyword -> text of the margin box (white space removed)
+	boxes               []decoBox         // block boxes that keep a bottom padding / border on this page
 }
 
 // decoBox: a block box with bottom decoration (not removed by fragmentation) on a page.
@@ -289,8 +355,9 @@ func observe(pages []*bo.PageBox) []implPage {
 		ip := implPage{right: p.PageType.Side == "right", blank: p.PageType.Blank, first: p.PageType.First, index: p.PageType.Index, name: pageName(p.PageType.Name)}
 		ip.geom = [8]float64{float64(p.MarginWidth()), float64(p.MarginHeight()), float64(p.MarginLeft.V()), float64(p.Width.V()), float64(p.MarginRight.V()),
 			float64(p.MarginTop.V()), float64(p.Height.V()), float64(p.MarginBottom.V())}
+		ip.marginBy = map[string]string{}
 		for _, ch := range p.Children {
-			_, isMargin := ch.(*bo.MarginBox)
+			mb, isMargin := ch.(*bo.MarginBox)
 			for _, d := range append([]bo.Box{ch}, bo.DescendantsPlaceholders(ch, true)...) {
 				if tb, ok := d.(*bo.TextBox); ok {
 					s := strings.TrimSpace(tb.TextS())
@@ -299,6 +366,8 @@ func observe(pages []*bo.PageBox) []implPage {
 					}
 					if isMargin {
 						ip.margin = append(ip.margin, s)
+						k := strings.TrimPrefix(mb.AtKeyword, "@")
+						ip.marginBy[k] += strings.Join(strings.Fields(s), "")
 					} else {
 						ip.lines = append(ip.lines, c02.Placed{Tok: c02.TokID(s), Text: s, Page: ip.index, Y: float64(tb.PositionY)})
 					}
@@ -442,7 +511,7 @@ func Run(tier string, seed uint64, modelPath, repo string, out *res.Result) erro
 		n = 50000
 	}
 	out.Rule = "class-F documents of the C02 generator (levels 0-3, named pages n1/n2 via `page`, break values incl. recto/verso) x @page rule sets " +
-		"(base rule with size + margins + @top-center counter box; 0-4 further rules with selectors :first :left :right :blank :nth(an+b) (a in -3..3, b in -2..12, also :nth():left) n1 n2 and combinations, selector lists, " +
+		"(base rule with size + margins + 1-10 margin boxes showing counter(page)/counter(pages)/counter(foo), half of them manipulating page or foo themselves; 0-4 further rules with selectors :first :left :right :blank :nth(an+b) (a in -3..3, b in -2..12, also :nth():left) n1 n2 and combinations, selector lists, " +
 		"root element direction ltr/rtl (1/3 rtl) and break-before left/right/recto/verso (1/4), " +
 		"declarations margin-top/bottom/left (px, %, auto, !important), size, height); non-trivial = >= 2 pages and >= 2 @page rules; distinct by full HTML text"
 	render.Quiet()
@@ -618,9 +687,8 @@ func oneCase(m *mp.Model, doc *c02.ClassF, rs ruleSet, seed uint64, fonts text.F
 					break pagesLoop
 				}
 			}
-			want := fmt.Sprintf("%d/%d", b.counter, len(mpages))
-			if len(a.margin) != 1 || a.margin[0] != want {
-				diff, thm = fmt.Sprintf("page %d: margin box text %v, model %s", i, a.margin, want), "page_counter_is_index"
+			if why := marginDiff(rs.mboxes, a.marginBy, b.counter, len(mpages)); why != "" {
+				diff, thm = fmt.Sprintf("page %d: %s", i, why), "page_counter_is_index, margin_box_counter_scoped"
 				break
 			}
 		}
@@ -649,7 +717,7 @@ func corpus() []corpusCase {
 		return rule{sels: []sel{{}}, decls: []decl{
 			{fmt.Sprintf("size:200px %vpx", h), []sx.X{d1("size-w", "px", 200, false), d1("size-h", "px", h, false)}},
 			{"margin:10px", []sx.X{d1("margin-top", "px", 10, false), d1("margin-right", "px", 10, false), d1("margin-bottom", "px", 10, false), d1("margin-left", "px", 10, false)}}},
-			extra: `;@top-center{content:counter(page) "/" counter(pages);font:10px/10px Ahem}`}
+			extra: marginCSS([]mbox{{at: "top-center"}})}
 	}
 	named := func(k int, top float64) rule {
 		return rule{sels: []sel{{name: k}}, decls: []decl{pxDecl("margin-top", top)}}
@@ -660,11 +728,25 @@ func corpus() []corpusCase {
 		out = append(out, corpusCase{c02.Render(root, rs.css(), 10, 180), rs})
 	}
 	// fixed 67f534b (F12-1): leaving a named page for the unnamed page
-	add(c02.Doc(c02.P(c02.Style{Pg: 1}, 1), c02.P(S, 1)), ruleSet{rules: []rule{base(200), named(1, 30)}})
+	add(c02.Doc(c02.P(c02.Style{Pg: 1}, 1), c02.P(S, 1)), ruleSet{rules: []rule{base(200), named(1, 30)}, mboxes: []mbox{{at: "top-center"}}})
 	// ... the pages after it must not keep the name
-	add(c02.Doc(c02.P(c02.Style{Pg: 1}, 2), c02.P(S, 12)), ruleSet{rules: []rule{base(120), named(1, 30)}})
+	add(c02.Doc(c02.P(c02.Style{Pg: 1}, 2), c02.P(S, 12)), ruleSet{rules: []rule{base(120), named(1, 30)}, mboxes: []mbox{{at: "top-center"}}})
 	// unnamed -> named -> unnamed, nested boxes, with a forced side in between
 	add(c02.Doc(c02.P(S, 2), c02.B(c02.Style{Pg: 2}, c02.P(c02.Style{Pg: 2}, 3), c02.P(c02.Style{Pg: 2, BB: "left"}, 2)), c02.B(S, c02.P(S, 2), c02.P(c02.Style{Pg: 1}, 1)), c02.P(S, 1)),
-		ruleSet{rules: []rule{base(100), named(1, 30), named(2, 20)}})
+		ruleSet{rules: []rule{base(100), named(1, 30), named(2, 20)}, mboxes: []mbox{{at: "top-center"}}})
 	return out
+}
+
+// marginDiff compares the margin boxes' texts with what each box must show: the page's counters,
+// changed only by the box's own counter-* declaration.
+func marginDiff(ms []mbox, got map[string]string, pc, total int) string {
+	if len(got) != len(ms) {
+		return fmt.Sprintf("%d margin boxes with text, %d declared: %v", len(got), len(ms), got)
+	}
+	for _, m := range ms {
+		if want := m.text(pc, total); got[m.at] != want {
+			return fmt.Sprintf("margin box @%s shows %q, expected %q", m.at, got[m.at], want)
+		}
+	}
+	return ""
 }
